@@ -185,6 +185,12 @@ struct Up0(u32, Vec<u8>);
 #[derive(Event, Serialize, Deserialize, Clone, Debug, PartialEq)]
 struct Up1(u32, Vec<u8>);
 
+/// Events without any payload: the message body is empty.
+#[derive(Event, Serialize, Deserialize, Clone, Debug, PartialEq)]
+struct DownEmpty;
+#[derive(Event, Serialize, Deserialize, Clone, Debug, PartialEq)]
+struct UpEmpty;
+
 #[derive(Resource, Default)]
 struct Got(Vec<(u8, u32, Vec<u8>)>);
 
@@ -212,6 +218,17 @@ fn build_app() -> App {
         .make_event_independent::<Down2>()
         .add_client_event::<Up0>(Channel::Ordered)
         .add_client_event::<Up1>(Channel::Ordered)
+        .add_server_event::<DownEmpty>(Channel::Ordered)
+        .make_event_independent::<DownEmpty>()
+        .add_client_event::<UpEmpty>(Channel::Ordered)
+        .add_systems(Update, |mut a: EventReader<DownEmpty>, mut b: EventReader<FromClient<UpEmpty>>, mut got: ResMut<Got>| {
+            for _ in a.read() {
+                got.0.push((3, 0, Vec::new()));
+            }
+            for _ in b.read() {
+                got.0.push((12, 0, Vec::new()));
+            }
+        })
         .init_resource::<Got>()
         .add_systems(
             Update,
@@ -245,17 +262,39 @@ fn build_app() -> App {
 
 /// One burst of `n` messages of `size` bytes in one sender frame; `Ok(None)` = inconclusive.
 fn loopback_burst(n: usize, size: usize, upstream: bool) -> Result<Option<u64>, String> {
+    loopback_burst_with(n, size, upstream, false)
+}
+
+/// `early` (server -> client only): the server accepts the connection and sends the whole burst
+/// before the client app runs its first frame with the socket.
+fn loopback_burst_with(n: usize, size: usize, upstream: bool, early: bool) -> Result<Option<u64>, String> {
     let mut server = build_app();
     let mut client = build_app();
     let socket = ExampleServer::new(0).map_err(|e| format!("bind: {e}"))?;
     let port = socket.local_addr().map_err(|e| e.to_string())?.port();
     let csock = ExampleClient::new(port).map_err(|e| format!("connect: {e}"))?;
     server.insert_resource(socket);
-    client.insert_resource(csock);
+    let mut csock = Some(csock);
+    if !early {
+        client.insert_resource(csock.take().unwrap());
+    }
     // connection establishment: arrival timing is the kernel's, so wait for it
     let mut connected = false;
     for _ in 0..200 {
         server.update();
+        if early {
+            let has_client = {
+                let w = server.world_mut();
+                let mut q = w.query::<&ConnectedClient>();
+                q.iter(w).count() == 1
+            };
+            if has_client {
+                connected = true;
+                break;
+            }
+            std::thread::sleep(Duration::from_millis(1));
+            continue;
+        }
         client.update();
         let has_client = {
             let w = server.world_mut();
@@ -301,20 +340,53 @@ fn loopback_burst(n: usize, size: usize, upstream: bool) -> Result<Option<u64>, 
             }
             sent.entry(ch).or_default().push((i, p));
         }
+        // every third message is followed by one without any payload
+        if i % 3 == 0 {
+            if upstream {
+                client.world_mut().send_event(UpEmpty);
+                sent.entry(12).or_default().push((0, Vec::new()));
+            } else {
+                server.world_mut().send_event(ToClients { mode: SendMode::Broadcast, event: DownEmpty });
+                sent.entry(3).or_default().push((0, Vec::new()));
+            }
+        }
     }
+    let total: usize = sent.values().map(|v| v.len()).sum();
     // one sender frame queues the whole burst; the receiver then runs frames until everything is there
     if upstream {
         client.update();
     } else {
         server.update();
     }
-    let total: usize = n;
+    if let Some(csock) = csock.take() {
+        // only now does the client app learn about its socket
+        std::thread::sleep(Duration::from_millis(2));
+        client.insert_resource(csock);
+    }
     let mut all: Vec<(u8, u32, Vec<u8>)> = Vec::new();
-    for _ in 0..400 {
+    if early {
+        // the client app's first frame with the socket: everything the server wrote is pending
+        client.update();
+        all.append(&mut client.world_mut().resource_mut::<Got>().0);
+    }
+    // A sentinel is sent in a later sender frame on the same connection: TCP is first-in
+    // first-out, so once the sentinel is there, whatever was sent before it and is still
+    // missing is lost, not late.
+    const SENTINEL: u32 = u32::MAX;
+    if upstream {
+        client.world_mut().send_event(Up0(SENTINEL, Vec::new()));
+        client.update();
+    } else {
+        server.world_mut().send_event(ToClients { mode: SendMode::Broadcast, event: Down0(SENTINEL, Vec::new()) });
+        server.update();
+    }
+    let mut sentinel_seen = false;
+    for _ in 0..600 {
         let rx = if upstream { &mut server } else { &mut client };
         rx.update();
         all.append(&mut rx.world_mut().resource_mut::<Got>().0);
-        if all.len() >= total {
+        if all.iter().any(|m| m.1 == SENTINEL) {
+            sentinel_seen = true;
             // two more frames to catch duplicates
             rx.update();
             rx.update();
@@ -322,6 +394,25 @@ fn loopback_burst(n: usize, size: usize, upstream: bool) -> Result<Option<u64>, 
             break;
         }
         std::thread::sleep(Duration::from_micros(300));
+    }
+    let sentinels = all.iter().filter(|m| m.1 == SENTINEL).count();
+    all.retain(|m| m.1 != SENTINEL);
+    if sentinels > 1 {
+        return Err(format!("the sentinel message arrived {sentinels} times"));
+    }
+    if sentinel_seen && all.len() < total {
+        let mut missing: Vec<String> = Vec::new();
+        for (ch, want) in &sent {
+            let got = all.iter().filter(|m| m.0 == *ch).count();
+            if got < want.len() {
+                missing.push(format!("channel {ch}: {} of {} (payload sizes {:?})", want.len() - got, want.len(), want.iter().map(|w| w.1.len()).collect::<BTreeSet<_>>()));
+            }
+        }
+        return Err(format!(
+            "{} of {total} messages never arrived although a message sent after them on the same connection did: {}",
+            total - all.len(),
+            missing.join("; ")
+        ));
     }
     if all.len() < total {
         // A transport that gave up on the connection is not a matter of timing.
@@ -361,7 +452,7 @@ fn loopback_burst(n: usize, size: usize, upstream: bool) -> Result<Option<u64>, 
     if let Some((ch, g)) = per.into_iter().next() {
         return Err(format!("channel {ch} delivered {} messages that were not sent on it", g.len()));
     }
-    Ok(Some((n * 1000 + size) as u64))
+    Ok(Some((n * 1000 + size) as u64 * 2 + early as u64))
 }
 
 fn loopback_part(tier: Tier, out: &mut Outcome, bad: &mut Vec<Bad>) {
@@ -398,6 +489,36 @@ fn loopback_part(tier: Tier, out: &mut Outcome, bad: &mut Vec<Bad>) {
                         replay: json!({"kind": "loopback", "n": n, "size": size, "upstream": upstream}),
                     }),
                 }
+            }
+        }
+    }
+    // the server sends before the client app's first frame with the socket
+    for &n in &counts {
+        for &size in &[2usize, 130] {
+            let mut result = None;
+            for _attempt in 0..3 {
+                let r = guarded(|| loopback_burst_with(n, size, false, true)).unwrap_or_else(|(m, l)| Err(format!("panic: {m} ({l})")));
+                match r {
+                    Ok(None) => continue,
+                    other => {
+                        result = Some(other);
+                        break;
+                    }
+                }
+            }
+            runs += 1;
+            match result {
+                None => inconclusive += 1,
+                Some(Ok(Some(d))) => {
+                    outcomes.insert(d);
+                }
+                Some(Ok(None)) => unreachable!(),
+                Some(Err(e)) => bad.push(Bad {
+                    oracle: if e.starts_with("bind") || e.starts_with("connect") { "socket" } else { "loopback-early" },
+                    case: format!("{n} messages of {size} bytes, server -> client, sent before the client app's first frame"),
+                    detail: e,
+                    replay: json!({"kind": "loopback", "n": n, "size": size, "upstream": false, "early": true}),
+                }),
             }
         }
     }
@@ -466,10 +587,11 @@ pub fn replay(doc: &serde_json::Value) -> i32 {
         run_history(&ops).map(|_| ())
     } else {
         let (n, size, up) = (doc["n"].as_u64().unwrap() as usize, doc["size"].as_u64().unwrap() as usize, doc["upstream"].as_bool().unwrap());
-        println!("loopback burst: {n} messages of {size} bytes, upstream {up}");
+        let early = doc["early"].as_bool().unwrap_or(false);
+        println!("loopback burst: {n} messages of {size} bytes, upstream {up}, early {early}");
         let mut r = Ok(());
         for _ in 0..3 {
-            match loopback_burst(n, size, up) {
+            match loopback_burst_with(n, size, up, early) {
                 Ok(None) => continue,
                 Ok(Some(_)) => break,
                 Err(e) => {
